@@ -38,6 +38,8 @@ pub enum Mut {
     AnyBits { seed: u64, n: usize },
     /// overwrite bytes at a logical offset
     Raw { logical: u64, bytes: Vec<u8> },
+    /// replace the whole XML text
+    XmlWhole { xml: String },
     /// drop the nth element called `tag` and set the numeric content of sibling number `sib`
     /// (another leaf of the same parent) to `value`: "optional element absent, default computed
     /// from a hostile sibling"
@@ -257,6 +259,7 @@ fn edit_xml(xml: &str, m: &Mut) -> Option<String> {
             }
             Some(format!("{}{}{}", &xml[..head_end + 1], out, &xml[close_start..]))
         }
+        Mut::XmlWhole { xml: x } => Some(x.clone()),
         Mut::XmlDropAndSibling { tag, nth, sib, value } => {
             let (s, e) = element_span(xml, tag, *nth)?;
             // the parent's extent: from the last unmatched '<name' before s to its end tag
@@ -587,7 +590,7 @@ pub fn draw_plan(r: &mut Rng, pristine: &[u8], map: &Decoded, size_targeted: boo
     let n = 1 + r.usize_below(3);
     let mut muts = Vec::new();
     for _ in 0..n {
-        let kind = if size_targeted { *r.pick(&[20u64, 21, 22, 23, 24, 25]) } else if r.chance(1, 25) { 21 } else { r.below(20) };
+        let kind = if size_targeted { *r.pick(&[20u64, 21, 22, 23, 24, 25, 26, 26]) } else if r.chance(1, 25) { 21 } else { r.below(20) };
         let m = match kind {
             0 => Mut::Header { field: r.below(7) as u8, value: draw_u64(r, file_len, &anchors) },
             1 | 2 => Mut::XmlNumber { nth: r.usize_below(400), value: r.pick(&NUM_TEXTS).to_string() },
@@ -702,6 +705,7 @@ pub fn draw_plan(r: &mut Rng, pristine: &[u8], map: &Decoded, size_targeted: boo
                 }
                 Mut::Header { field: 6, value: *r.pick(&cands) }
             }
+            26 => Mut::PacketBomb { cv: r.usize_below(4), kind: if r.chance(2, 3) { 0 } else { 1 + r.below(2) as u8 } },
             _ => Mut::XmlAttr { name: "length".into(), nth: r.usize_below(8), value: r.pick(&["18446744073709551615", "18446744073709551600", "9223372036854775807"]).to_string() },
         };
         muts.push(m);
